@@ -154,6 +154,26 @@ def explain_c20_list(ln, i0, i1, i2, form):
     return {'container': KIND, 'n': N, 'indices': [i0, i1, i2][:ln], 'form': ['list', 'intp array', 'int8 array', 'tuple'][form], 'why': _list_run(ln, i0, i1, i2, form)[1]}
 
 
+def _list3_run(i0, i1, i2, as_array):
+    vals = [fork_int(x, -N, N - 1) for x in (i0, i1, i2)]
+    with NoTracing():
+        idx = np.array(vals, dtype=np.intp) if as_array else list(vals)
+        return check_index(idx, np.array(vals, dtype=np.intp))
+
+
+def _c20_list3(i0: int, i1: int, i2: int, as_array: bool) -> bool:
+    """
+    Every sequence of three valid indices (repeats, any order, negative ones).
+    pre: all(-N <= x < N for x in (i0, i1, i2))
+    post: _
+    """
+    return _list3_run(i0, i1, i2, as_array)[0]
+
+
+def explain_c20_list3(i0, i1, i2, as_array):
+    return {'container': KIND, 'n': N, 'indices': [i0, i1, i2], 'array': as_array, 'why': _list3_run(i0, i1, i2, as_array)[1]}
+
+
 # ---- boolean masks ------------------------------------------------------------------------------------------------
 
 def _mask_run(bits, ln):
